@@ -12,7 +12,7 @@ use std::sync::{
     Arc, OnceLock,
 };
 
-use common::{check_step, interleaving_digest, Ev, Ind, Maker, Pop, StepFacts};
+use common::{check_step, interleaving_digest, Ev, Ind, Maker, Pop, StepFacts, PANIC_BASE};
 use ec_core::{
     generation::Generation,
     individual::{ec::EcIndividual, scorer::FnScorer},
@@ -81,6 +81,15 @@ fn exec_maker(n: usize, steps: &[Vec<usize>], draws: usize, threads: usize, obs:
         });
         let result = match r {
             Ok(r) => r,
+            Err(p) if faults.iter().any(|f| *f >= PANIC_BASE) && p.message.contains("injected child-maker panic") => {
+                // the child maker's own panic unwound through the step and was caught by the caller, who keeps the
+                // generation: nothing is required of this step, everything of the following ones
+                obs.hit("fault.child-maker-panic-caught");
+                obs.count("steps", maker.take_log().iter().filter(|e| matches!(e, Ev::Enter { .. })).count() as u64);
+                any_fault = true;
+                previous_words.clear();
+                continue;
+            }
             Err(p) => {
                 v.push(Violation::new(
                     "never-panics",
@@ -373,6 +382,7 @@ impl Check for C09 {
     fn declared_probes(&self) -> Vec<&'static str> {
         vec![
             "fault.child-fail",
+            "fault.child-maker-panic-caught",
             "fault.component-fail",
             "probe.children-never-attempted-after-an-error",
             "probe.empty-population",
@@ -480,6 +490,18 @@ impl Check for C09 {
             let f = !p.is_empty();
             steps.push(p);
             if f {
+                steps.push(Vec::new());
+            }
+        }
+        if n >= 1 && run % 8 == 5 {
+            // user code panics inside the child maker at call k (enumerated by run index for small populations), the
+            // caller catches the unwind, keeps the generation and steps again
+            let k = (run / 8) as usize % n;
+            let at = g.usize_below(steps.len());
+            steps[at] = vec![PANIC_BASE + k];
+            steps.truncate(at + 1);
+            steps.push(Vec::new());
+            if g.coin() {
                 steps.push(Vec::new());
             }
         }
